@@ -1044,11 +1044,28 @@ class Pass3(CompilePass):
         # on pass 2 where the Lvalue is replaced with a FuncCall,
         # we're already traversing the tree and we'll still see the
         # old Lvalue in the tree.
-        if not isinstance(node.lvalue, Lvalue):
+        self._check_is_variable(node.lvalue)
+
+    def _check_is_variable(self, target):
+        if not isinstance(target, Lvalue):
             raise CompileError(
                 EC.DUPLICATE_DEFINITION,
                 'A function with the same name exists',
-                node=node.lvalue)
+                node=target)
+
+    # INPUT, READ and FOR store into their variables just like an
+    # assignment does
+
+    def process_input_pre(self, node):
+        for target in node.var_list:
+            self._check_is_variable(target)
+
+    def process_read_pre(self, node):
+        for target in node.var_list:
+            self._check_is_variable(target)
+
+    def process_for_block_pre(self, node):
+        self._check_is_variable(node.var)
 
     def process_select_block_pre(self, node):
         vtype = node.value.type
